@@ -393,7 +393,18 @@ fn unseamed_part(ctx: &Ctx) -> (u64, u64) {
         |rt, _, (msgs, run)| {
             let stream: Vec<u8> = msgs.iter().flat_map(|m| alpha[*m].1.clone()).collect();
             let a = pipe_outcome(&stream, run);
-            match tcp_outcome(rt, &stream, run) {
+            // a panic of the subject inside the loopback run is an outcome like any other (the
+            // in-memory run reports it as Terminal::Err("panic: ..")), never an engine failure
+            let b = match core::catch(|| tcp_outcome(rt, &stream, run)) {
+                Ok(b) => b,
+                Err(p) => {
+                    if matches!(&a.1, Terminal::Err(e) if e.starts_with("panic")) {
+                        return None;
+                    }
+                    Err(format!("the subject panicked over loopback TCP only: {}", p))
+                }
+            };
+            match b {
                 Ok(b) if a == b => None,
                 Ok(b) => Some(format!("stream {:?} cuts {:?} eof_at {:?}: in-memory pipe gave {} frames / {:?}, loopback TCP gave {} frames / {:?}", msgs.iter().map(|m| alpha[*m].0).collect::<Vec<_>>(), run.cuts, run.eof_at, a.0.len(), a.1, b.0.len(), b.1)),
                 Err(e) => Some(format!("loopback TCP run failed: {}", e)),
